@@ -101,7 +101,7 @@ def _dodoers(nodes):
 def searches(tier):
     q = tier == "quick"
     return [
-        ("nested-vs-flat", schedgen.program(maxdepth=3, max_leaves=7, dd_odds=1), 1500 if q else 20000),
-        ("nested-vs-flat-split-yields", schedgen.program(maxdepth=3, max_leaves=7, split_yields=True, dd_odds=1),
+        ("nested-vs-flat", schedgen.program(maxdepth=3, max_leaves=7, dd_odds=1, prerun_ok=True), 1500 if q else 20000),
+        ("nested-vs-flat-split-yields", schedgen.program(maxdepth=3, max_leaves=7, split_yields=True, dd_odds=1, prerun_ok=True),
          1000 if q else 12000),
     ]
